@@ -4,7 +4,7 @@
    The 14 generated tables (Gen/ConfigSchemas.v, re-read from the config.go files at every run) are shown to
    satisfy the obligations by computation, so the generic statements hold of every section. *)
 From Coq Require Import String List ZArith Bool.
-From V Require Import Model.C15_Config Model.C15_Valid Gen.ConfigSchemas Proofs.C15_Config Proofs.C15_Tables.
+From V Require Import Model.C15_Config Model.C15_Valid Model.C15_Manager Gen.ConfigSchemas Proofs.C15_Config Proofs.C15_Tables Proofs.C15_Manager.
 Import ListNotations.
 Open Scope string_scope.
 
@@ -102,6 +102,114 @@ Theorem sections_display S c n v : In S all_schemas -> In (n, v) (display S c) -
 Proof. exact (sections_display_l S c n v). Qed.
 Print Assumptions sections_display.
 
+(* -- the whole configuration file: the Manager (config/config.go) ------------------------------------ *)
+(* Quantification: every set of registered components (regs; keys unique and of a section type the Manager knows),
+   every state m of the Manager — in particular every stored file m_json m, with or without sections whose component
+   is not registered, whatever those sections hold — every file f, every previous state m0 / m1. *)
+
+(* The displayable form consists of the registered components' displayable forms and nothing else, and every member
+   named secret / private_key / basic_auth_credentials anywhere in it shows the marker: a secret standing in the loaded
+   file — under a registered component or not, under a component name nobody knows — is not displayed. *)
+Theorem manager_display_hides regs m :
+  regs_coherent regs ->
+  forall k r, In (k, r) (mgr_display (map comp_of regs) m) ->
+    In k (map sc_key regs) /\
+    exists d, r = SDoc d /\ forall n v, In (n, v) d -> secret_name n = true -> v = hidden_marker.
+Proof. exact (manager_display_hides_l regs m). Qed.
+Print Assumptions manager_display_hides.
+
+(* for every implementation of the component interface: a section of the file whose component is not registered is absent *)
+Theorem manager_display_unregistered_absent (reg : list comp) (cfgs : list cfg) (f : file) k :
+  ~ In k (map ckey reg) -> fget k (mgr_display reg (mkMgr cfgs (Some f))) = None.
+Proof. exact (manager_display_unregistered_absent_l reg cfgs f k). Qed.
+Print Assumptions manager_display_unregistered_absent.
+
+(* the boolean form evaluated on the implementation's own output by the correspondence check holds of the model *)
+Theorem manager_display_hidesb regs m : regs_coherent regs -> display_hidesb (mgr_display (map comp_of regs) m) = true.
+Proof. exact (manager_display_hidesb_l regs m). Qed.
+Print Assumptions manager_display_hidesb.
+
+(* ToJSON: entries of the loaded file without a registered component are kept verbatim; a registered component's entry
+   is what the component saves *)
+Theorem manager_save_keeps_unregistered reg m f' :
+  mgr_save reg m = Some f' ->
+  (forall k, ~ In k (map ckey reg) -> fget k f' = fget k (loaded_json m)) /\
+  (NoDup (map ckey reg) -> forall c x, In (c, x) (combine reg (m_cfgs m)) ->
+     fget (ckey c) f' = Some (SDoc (i_save (cimpl c) x))).
+Proof. exact (manager_save_keeps_unregistered_l reg m f'). Qed.
+Print Assumptions manager_save_keeps_unregistered.
+
+(* LoadJSON is a total function into (error | state): its result is exactly described; malformed bytes, a section its
+   registered component refuses, a resulting configuration that fails validation, a missing cluster component are the
+   error value *)
+Theorem manager_load_total reg m0 f m :
+  mgr_load reg m0 (Some f) = Some m <->
+  has_cluster reg = true /\ load_all reg (m_cfgs m0) f = Some (m_cfgs m) /\ all_valid reg (m_cfgs m) = true
+  /\ m_json m = Some (retain f).
+Proof. exact (load_spec_mgr reg m0 f m). Qed.
+Print Assumptions manager_load_total.
+
+Theorem manager_load_rejects reg m0 f c r :
+  In c reg -> fpresent (ckey c) f = Some r -> i_load (cimpl c) r = None -> mgr_load reg m0 (Some f) = None.
+Proof. exact (load_rejects_mgr reg m0 f c r). Qed.
+Print Assumptions manager_load_rejects.
+
+Theorem manager_load_rejects_invalid reg m0 f xs :
+  load_all reg (m_cfgs m0) f = Some xs -> has_cluster reg && all_valid reg xs = false -> mgr_load reg m0 (Some f) = None.
+Proof. exact (load_rejects_invalid_mgr reg m0 f xs). Qed.
+Print Assumptions manager_load_rejects_invalid.
+
+Theorem manager_load_valid reg m0 bytes m : mgr_load reg m0 bytes = Some m -> mgr_valid reg m = true.
+Proof. exact (load_valid_mgr reg m0 bytes m). Qed.
+Print Assumptions manager_load_valid.
+
+(* the per-section round trip lifted to the whole file, for every registered subset: an accepted file validates, is
+   saved, the saved file keeps the entries of unregistered components (of known section types) verbatim and holds what
+   each registered component saves, and loading it again — from any previous state — gives the same configurations.
+   pre_stable: the cluster component is not reset when the file has no cluster section; the configuration it keeps has
+   to be one that survives its own save and load (e.g. one Default() or an earlier load produced). *)
+Theorem manager_load_save_load regs m0 f m :
+  regs_wf regs -> regs_coherent regs -> regs_defaults_stable regs ->
+  pre_stable (map comp_of regs) (m_cfgs m0) ->
+  mgr_load (map comp_of regs) m0 (Some f) = Some m ->
+  mgr_valid (map comp_of regs) m = true /\
+  exists f', mgr_save (map comp_of regs) m = Some f' /\
+    (forall k, ~ In k (map sc_key regs) -> fget k f' = if known_key k then fget k f else None) /\
+    (forall sc x, In (sc, x) (combine regs (m_cfgs m)) -> fget (sc_key sc) f' = Some (SDoc (save (sc_schema sc) x))) /\
+    forall m1, length (m_cfgs m1) = length regs ->
+      mgr_load (map comp_of regs) m1 (Some f') = Some (mkMgr (m_cfgs m) (Some f')).
+Proof. exact (manager_load_save_load_l regs m0 f m). Qed.
+Print Assumptions manager_load_save_load.
+
+(* on the 14 generated tables, each section with its own validator, for every subset and every assignment of section keys *)
+Theorem manager_sections_display regs m : Forall from_tables regs ->
+  display_hidesb (mgr_display (map comp_of regs) m) = true /\
+  forall k, ~ In k (map sc_key regs) -> fget k (mgr_display (map comp_of regs) m) = None.
+Proof. exact (manager_sections_display_l regs m). Qed.
+Print Assumptions manager_sections_display.
+
+Theorem manager_sections_roundtrip regs m0 f m :
+  regs_wf regs -> Forall from_tables regs -> pre_stable (map comp_of regs) (m_cfgs m0) ->
+  mgr_load (map comp_of regs) m0 (Some f) = Some m ->
+  mgr_valid (map comp_of regs) m = true /\
+  exists f', mgr_save (map comp_of regs) m = Some f' /\
+    (forall k, ~ In k (map sc_key regs) -> fget k f' = if known_key k then fget k f else None) /\
+    (forall sc x, In (sc, x) (combine regs (m_cfgs m)) -> fget (sc_key sc) f' = Some (SDoc (save (sc_schema sc) x))) /\
+    forall m1, length (m_cfgs m1) = length regs ->
+      mgr_load (map comp_of regs) m1 (Some f') = Some (mkMgr (m_cfgs m) (Some f')).
+Proof. exact (manager_sections_roundtrip_l regs m0 f m). Qed.
+Print Assumptions manager_sections_roundtrip.
+
+(* saving and loading each section's default configuration gives it back; Manager.Default() is valid *)
+Theorem defaults_stable_sections orc : forallb (fun S => default_stableb S orc) all_schemas = true.
+Proof. exact (defaults_stable_tables orc). Qed.
+Print Assumptions defaults_stable_sections.
+
+Theorem manager_default_valid regs m : Forall from_tables regs ->
+  has_cluster (map comp_of regs) = true -> mgr_valid (map comp_of regs) (mgr_default (map comp_of regs) m) = true.
+Proof. exact (manager_default_valid_l regs m). Qed.
+Print Assumptions manager_default_valid.
+
 (* -- non-vacuity and the two repaired defects ---------------------------------------------------- *)
 
 (* S15: a raft datastore_namespace given in the file is loaded (and survives save + load) *)
@@ -124,3 +232,44 @@ Example stateless_rejects_zero_after_default :
   load schema_stateless valid_stateless (fun _ => true) [("concurrent_pins", VZ (-1))] = None
   /\ exists c, load schema_stateless valid_stateless (fun _ => true) [("concurrent_pins", VZ 3)] = Some c.
 Proof. split; [vm_compute; reflexivity | eexists; vm_compute; reflexivity]. Qed.
+
+(* -- the Manager: witnesses ------------------------------------------------------------------------ *)
+(* a Manager with the cluster and raft components; the file also has a restapi section with credentials (component not
+   registered), a section for a component name nobody knows, and a member under an unknown top-level name *)
+Definition ex_regs : list scomp :=
+  [mkSComp cluster_key schema_cluster (validator_of "cluster") (fun _ => true);
+   mkSComp ("consensus", "raft") schema_raft (validator_of "raft") (fun _ => true)].
+Definition ex_restapi : sraw := SDoc [("basic_auth_credentials", VL ["admin=pw"]); ("private_key", VS "CAAS")].
+Definition ex_unknown : sraw := SDoc [("secret", VS "0123")].
+Definition ex_file : file :=
+  [(cluster_key, SDoc (("secret", VS "abcd") :: save schema_cluster (defaults schema_cluster)));
+   (("api", "restapi"), ex_restapi); (("api", "grpcapi"), ex_unknown); (("extra", "x"), SDoc [])].
+Definition ex_m0 : mgr := mkMgr [[]; []] None.
+
+(* the file loads (raft takes its defaults); the displayable form has exactly the two registered sections; the saved
+   file keeps the restapi and grpcapi entries verbatim, drops the unknown top-level member, and loads again *)
+Example manager_unregistered_witness :
+  exists m f', mgr_load (map comp_of ex_regs) ex_m0 (Some ex_file) = Some m
+    /\ map fst (mgr_display (map comp_of ex_regs) m) = [cluster_key; ("consensus", "raft")]
+    /\ display_hidesb (mgr_display (map comp_of ex_regs) m) = true
+    /\ mgr_save (map comp_of ex_regs) m = Some f'
+    /\ fget ("api", "restapi") f' = Some ex_restapi /\ fget ("api", "grpcapi") f' = Some ex_unknown
+    /\ fget ("extra", "x") f' = None
+    /\ mgr_load (map comp_of ex_regs) ex_m0 (Some f') = Some (mkMgr (m_cfgs m) (Some f')).
+Proof. eexists. eexists. vm_compute. repeat split; reflexivity. Qed.
+
+(* the statement manager_display_hides separates: a ToDisplayJSON that started from the loaded jsonConfig (as ToJSON
+   does) would show the credentials of the unregistered restapi section *)
+Example display_from_loaded_would_leak :
+  exists m, mgr_load (map comp_of ex_regs) ex_m0 (Some ex_file) = Some m
+    /\ In (("api", "restapi"), ex_restapi) (mgr_display_from_loaded (map comp_of ex_regs) m)
+    /\ display_hidesb (mgr_display_from_loaded (map comp_of ex_regs) m) = false.
+Proof. eexists. vm_compute. repeat split. right. left. reflexivity. Qed.
+
+(* errors are values: a registered section that is refused, a file without a cluster component registered, malformed bytes *)
+Example manager_rejects_witness :
+  mgr_load (map comp_of ex_regs) ex_m0 (Some ((("consensus", "raft"), SDoc [("commit_retries", VZ (-1))]) :: ex_file)) = None
+  /\ mgr_load (map comp_of ex_regs) ex_m0 (Some ((("consensus", "raft"), SJunk) :: ex_file)) = None
+  /\ mgr_load (map comp_of (tl ex_regs)) (mkMgr [[]] None) (Some ex_file) = None
+  /\ mgr_load (map comp_of ex_regs) ex_m0 None = None.
+Proof. vm_compute. repeat split; reflexivity. Qed.
